@@ -31,7 +31,9 @@ ASSUMPTIONS = [
 ]
 
 BOXES = [(3, 3, 3), (2, 3, 4)]
-KINDS = ["single", "batch(1,1)", "batch(2,1)", "batch(3,2,1)", "group2", "group3", "groupinc"]
+KINDS = ["single", "batch(1,1)", "batch(2,1)", "batch(3,2,1)", "group2", "group3", "groupinc", "batch(2,1|1,1)", "batch(1,1|2,1)+"]
+# "batch(a,b|c,d)": two batch loaders built independently (both number their tomograms 0, 1) and merged with from_loaders;
+# with a trailing "+": merged with first.add_loader(second)
 # group features: uid mod 2, uid mod 3, and one whose groups grow (sizes 1, 2, 3: a one-molecule group comes first)
 GINC = [0, 1, 1, 2, 2, 2]
 GKEY = {"group2": ("g2", lambda u: u % 2), "group3": ("g3", lambda u: u % 3), "groupinc": ("gi", lambda u: GINC[u])}
@@ -45,7 +47,7 @@ def AXES(tier):
 def _counts(kind, N):
     """how the N molecules are distributed over tomograms"""
     if kind.startswith("batch"):
-        c = [int(x) for x in kind[6:-1].split(",")]
+        c = [int(x) for x in kind.rstrip("+")[6:-1].replace("|", ",").split(",")]
         if sum(c) > N:
             return None
         c[0] += N - sum(c)
@@ -122,6 +124,17 @@ def _onehot_universe(counts, box, chunk):
 def _make_loader(kind, tomos, moles, box, order=1):
     from acryo import BatchLoader, SubtomogramLoader
 
+    if kind.startswith("batch") and "|" in kind:
+        nfirst = len(kind[6:].split("|")[0].split(","))
+        parts = []
+        for sl in (slice(0, nfirst), slice(nfirst, None)):
+            b = BatchLoader(order=order, scale=1.0, output_shape=box)
+            for T, m in zip(tomos[sl], moles[sl]):
+                b.add_tomogram(T, m)  # automatic image ids: 0, 1, ... in each part
+            parts.append(b)
+        if kind.endswith("+"):
+            return parts[0].add_loader(parts[1])
+        return BatchLoader.from_loaders(parts, order=order, scale=1.0, output_shape=box)
     if kind.startswith("batch"):
         ld = BatchLoader(order=order, scale=1.0, output_shape=box)
         for t, (T, m) in enumerate(zip(tomos, moles)):
